@@ -59,6 +59,9 @@ func finish(c *cat.Catalog, opts []cat.Opts, cb bool) *cat.Catalog {
 		if h == 7 {
 			f.Enc.Nest = 1
 		}
+		if h == 3 || h == 8 {
+			f.Enc.RNest = f.Kind != "inv"
+		}
 		if cb && f.Kind != "inv" {
 			f.Cb = true
 		}
